@@ -30,7 +30,10 @@ J3(a, b, c) == JoinKids(JoinKids(a, b), c)
 
 (* ---------------- inline ---------------- *)
 Leaf == { <<S(<<"a1">>)>>, <<S(<<"b1", "SP", "c1">>)>> }
-LeafBr == { <<S(<<"x1", "SP", "[", "[", "SP", "y1">>)>>, <<S(<<"x1", "]", "]", "SP", "y1">>)>> }
+\* literal brackets: an opening pair, a closing pair, and both (written through Unparse the last
+\* one is the text "[[y1]]", which must not come back as a link)
+LeafBr == { <<S(<<"x1", "SP", "[", "[", "SP", "y1">>)>>, <<S(<<"x1", "]", "]", "SP", "y1">>)>>,
+            <<S(<<"x1", "SP", "[", "[", "y1", "]", "]", "SP", "z1">>)>> }
 CallW == {"T", "N", "P", "A"}
 Wrappers(cx) ==
   CallW
